@@ -376,8 +376,23 @@ def mon_spchan(case, tr, raw):
     return mon_uchan(case, tr, raw, tail_kind=3)
 
 
+L_REST = 13900     # search mode (RT_CATCHALL=1): byte b of the signal = 13900 + b, of the channel object = 14900 + b,
+#                    for every byte that has no location above (node locations of h_uchan/h_spchan end at 8508)
+
+
+def _known_locs_only(mon):
+    """the monitors read the locations of the model; accesses to other bytes of the objects (search mode only) are
+    scheduling points, not events of the protocol: they are dropped here, never mistaken for buffer / scratch cells"""
+    def m(case, tr, raw):
+        if tr is not None:
+            tr = [e for e in tr if e[1] < L_REST]
+        return mon(case, tr, raw)
+    return m
+
+
 MONITORS = {"signal": mon_signal, "uchan": mon_uchan, "bchan": mon_bchan, "mchan": mon_mchan,
             "spchan": mon_spchan}
+MONITORS = {k: _known_locs_only(v) for (k, v) in MONITORS.items()}
 
 
 # --------------------------------------------------------------------------
@@ -612,17 +627,20 @@ def search(ctx, exes):
         if not exe:
             continue
         cs = cases[label][:12000]
-        impl = core.run_sharded([exe], cs)
+        # RT_CATCHALL: every byte of the signal / channel objects is a scheduling point (fields the model does not know included)
+        impl = core.run_sharded(["env", "RT_CATCHALL=1", exe], cs)
         for c, line in zip(cs, impl):
-            why = MONITORS[label](c, core.parse_trace(line) if line else None, line)
+            why = core.safe_monitor(MONITORS[label], c, core.parse_trace(line) if line else None, line)
             if why:
-                core.report_violation(ctx, label, c, why, line)
+                core.report_violation(ctx, label + "+catchall", c, why, line)
                 if len(ctx.violations) >= 3:
                     return
 
 
 def replay(ctx, payload):
-    label = payload.get("harness")
+    label = str(payload.get("harness", ""))
+    catchall = label.endswith("+catchall")
+    label = label[:-len("+catchall")] if catchall else label
     c = payload.get("case")
     if label not in MONITORS or not c:
         print("nothing to replay (no concrete case in this file)")
@@ -631,6 +649,11 @@ def replay(ctx, payload):
     if not exe:
         print("harness does not build")
         return 2
+    if catchall:
+        impl = core.run_sharded(["env", "RT_CATCHALL=1", exe], [c])[0]
+        why = core.safe_monitor(MONITORS[label], c, core.parse_trace(impl) if impl is not None else None, impl)
+        print("harness: %s\ncase:  %s\nimpl (every byte of the objects a scheduling point):  %s\nmonitor: %s" % (label, c, impl, why or "ok"))
+        return 1 if why else 0
     impl = core.run_sharded([exe], [c])[0]
     mod = core.model_run(label, [c])[0]
     why = MONITORS[label](c, core.parse_trace(impl), impl)
